@@ -241,13 +241,30 @@ func cmdCheck(args []string) {
 		exit = 1
 	}
 	// bounded stand-ins (labelled bounded) for the parts of a property outside the verifier's reach
-	if test, ok := boundedTests[*prop]; ok {
-		bev, bvio := boundedCheck(*prop, test, *repo, *tier, seed, kfs, *replays)
-		res.Bounded = bev
-		if bvio > 0 {
-			exit = 1
-			for i := 0; i < bvio; i++ {
-				res.Violations = append(res.Violations, violation{Obligation: "bounded:" + *prop, Replay: *replays})
+	if tests, ok := boundedTests[*prop]; ok {
+		for _, test := range strings.Split(tests, ",") {
+			bev, bvio := boundedCheck(*prop, test, *repo, *tier, seed, kfs, *replays)
+			if res.Bounded == nil {
+				res.Bounded = bev
+			} else {
+				// several stand-ins: keep each under its test name, add up the counts
+				res.Bounded[test] = bev
+				if a, ok := res.Bounded["evaluations"].(int); ok {
+					if b, ok := bev["evaluations"].(int); ok {
+						res.Bounded["evaluations"] = a + b
+					}
+				}
+				if a, ok := res.Bounded["distinct_nontrivial"].(int); ok {
+					if b, ok := bev["distinct_nontrivial"].(int); ok {
+						res.Bounded["distinct_nontrivial"] = a + b
+					}
+				}
+			}
+			if bvio > 0 {
+				exit = 1
+				for i := 0; i < bvio; i++ {
+					res.Violations = append(res.Violations, violation{Obligation: "bounded:" + *prop + ":" + test, Replay: *replays})
+				}
 			}
 		}
 	}
@@ -771,7 +788,7 @@ func (w *World) neverClosedObligations(p string) []*Obligation {
 	return out
 }
 
-var boundedTests = map[string]string{"C07": "TestC07", "C16": "TestC16", "C17": "TestC17"}
+var boundedTests = map[string]string{"C07": "TestC07", "C16": "TestC16", "C17": "TestC17,TestC17Hub"}
 
 // properties whose claim is a proof and whose bounded stand-in only covers a clause that is explicitly NOT claimed as proved
 var boundedIsExtra = map[string]bool{"C17": true}
